@@ -34,7 +34,7 @@ ASSUME = ['numpy trusted; physical constant AMU taken from taurex.constants',
           'atomic weights: the documented IUPAC-1995 table (embedded in mc/ref/chem.py)',
           'control values > 0 (profiles are defined through logarithms); two-layer smoothing 1..100 %',
           'totals within 4 eps of one: either verdict accepted (float summation order is not fixed by the statement)',
-          'deactive_molecules / forced-active overrides are outside the alphabet']
+          'a molecule named in the global deactive_molecules list counts as having no opacity data (what the code does in cross-section mode and in correlated-k mode alike; the statement does not mention the switch)']
 
 FILLS = [['H2', 'He'], ['H2'], ['H2', 'He', 'N2'], ['N2', 'H2', 'He', 'CO2']]
 RATIOS = {'std': [0.17, 0.05, 0.02], 'one': [1.0, 1.0, 1.0], 'tiny': [1e-12, 1e-12, 1e-12],
@@ -266,6 +266,12 @@ def mix_case(case):
     ratios = list(RATIOS[rl][:nf - 1])
     avail = list(case['avail'])
     install_opacities(avail, case['mode'])
+    if case.get('deactive', 'none') != 'none':
+        # molecules switched off by the user (global deactive_molecules): treated as having no opacity data, in both
+        # opacity modes alike
+        from taurex.cache import GlobalCache
+        GlobalCache()['deactive_molecules'] = case['deactive'].split('+')
+        avail = [a_ for a_ in avail if a_ not in case['deactive'].split('+')]
     P = pressures(n, 'std')
     T = temperatures(n, case['T'])
 
@@ -311,6 +317,15 @@ def mix_case(case):
                 total_max=float(max(rchem.exact_total(traces))),
                 mix=None if exc is not None else chem.mixProfile)
         r.observe('rejected' if exc is not None else 'accepted')
+        if exc is not None:
+            # "rejected rather than producing negative fill": nothing negative is left standing on the object either
+            try:
+                left = chem.mixProfile
+            except Exception:
+                left = None
+            if left is not None and np.size(left):
+                r.check(bool(np.all(np.asarray(left, dtype=float) >= 0)), 'reject-above-unity',
+                        'mixture/negative-fill-left-after-rejection/nfill=%d' % nf, left=np.asarray(left, float).min())
         r.nontrivial = True
         return r
     if klass == 'valid':
@@ -386,8 +401,10 @@ def mix_cases(tier):
     dims['T'] = ['iso1000', 'dec', 'cold']
     dims['avail'] = AVAIL
     dims['mode'] = ['xsec', 'ktables']
+    dims['deactive'] = ['none', 'H2O', 'CH4+Na']
     if not thorough:
         cases = core.product_cases(dims, core=['H2O', 'CH4', 'CO'], d=2)
+        cases += core.product_cases(dims, core=['avail', 'mode', 'deactive'], d=0)
         cases += [c for c in core.product_cases(dims, core=['fill', 'ratio', 'avail', 'mode'], d=0)
                   if c not in cases[:0]]
         cases += core.product_cases(dims, core=['fill', 'ratio', 'H2O', 'N'], d=0)
@@ -495,6 +512,13 @@ def hist_fn(case):
             r.check(False, 'history-rejects-above-unity', 'history-no-rejection')
         except InvalidModelException:
             r.check(True, 'history-rejects-above-unity')
+            try:
+                left = live.chemistry.mixProfile
+            except Exception:
+                left = None
+            if left is not None and np.size(left):
+                r.check(bool(np.all(np.asarray(left, dtype=float) >= 0)), 'history-rejects-above-unity',
+                        'history-negative-fill-left-after-rejection', left=float(np.asarray(left, float).min()))
     return r
 
 
